@@ -238,6 +238,11 @@ def klong_text(op):
         k, v = op["k"], op["v"]
         if op["form"] == "lit":
             tup = "[" + src(k, True) + " " + src(v, True) + "]"
+        elif op["form"] == "flat":
+            # the flat three-part spelling d,k,v (= d,(k,v)): Join of two ATOMS makes the tuple - only for
+            # payloads that Join does not append to a string / character key (numbers and symbols)
+            tup = src(k, False) + "," + src(v, False)
+            return pre + (f"{op['d']},{tup}" if op["side"] == "L" else f"({tup}),{op['d']}")
         else:
             vs = v[1] if v[0] == "var" else src(v, False)
             tup = "(" + src(k, False) + ",," + vs + ")"
@@ -453,7 +458,7 @@ class Machine:
 # ----------------------------------------------------------------------------- the real interpreter
 
 class Real:
-    def __init__(self):
+    def __init__(self, module=False):
         from klongpy import KlongInterpreter
         import klongpy.core as core
         self.core = core
@@ -467,6 +472,19 @@ class Real:
             return 0
 
         self.klong["rec"] = rec
+        # module variant: the same program between .module(:m) and the end; every symbol written in the
+        # module (keys, payloads, probes) is read as `name`m - one uniform renaming, stripped again here
+        self.sfx = "`m" if module else ""
+        if module:
+            self.klong(".module(:m)")
+
+    def sym(self, v):
+        t = str(v)
+        if self.sfx and t.endswith(self.sfx):
+            # (a symbol read WITHOUT the qualifier prints the same here; it is the Klong-level probes
+            #  d?:name, #d, Each that tell it from the module's symbol)
+            t = t[:-len(self.sfx)]
+        return "y" + _hex(t)
 
     def each(self, text):
         """run an Each whose function records its argument; the observation is the tuples f RECEIVED
@@ -506,7 +524,7 @@ class Real:
         if v is core.KLONG_UNDEFINED or type(v).__name__ == "KGUndefined":
             return "U"
         if isinstance(v, core.KGSym):
-            return "y" + _hex(str(v))
+            return self.sym(v)
         if isinstance(v, core.KGChar):
             return "c" + _hex(str(v))
         if isinstance(v, str):
@@ -530,7 +548,7 @@ class Real:
     def nkey(self, k):
         core = self.core
         if isinstance(k, core.KGSym):
-            return "y" + _hex(str(k))
+            return self.sym(k)
         if isinstance(k, str):
             return "t" + _hex(str(k))
         if isinstance(k, (bool, np.bool_, int, np.integer)):
@@ -665,6 +683,8 @@ def gen_op(rng, st, pool, done=()):
         v = fit(k, rng.choice(VALUES))
         # `,0cx` is the string "x", so the computed tuple k,,v is only used for non-character values
         form = "lit" if v[0] == "c" else rng.choice(["lit", "cat"])
+        if v[0] in ("i", "r", "y") and rng.random() < 0.35:
+            form = "flat"
         return dict(op="join", side=side, form=form, d=d, k=k, v=v, into=into)
     if r < 0.60:
         return dict(op="remove", d=d, k=k, into=rng.choice(VARS) if rng.random() < 0.1 else None)
@@ -763,7 +783,7 @@ def rename_apart(ops, pool, texts):
     return out, [rk(k) for k in pool]
 
 
-def vanishes_when_renamed(ops, pool):
+def vanishes_when_renamed(ops, pool, module=False):
     """is the failure due to a character key meeting the symbol with the same text?  It is iff the
     same history, with those symbols renamed apart, satisfies the oracle on the real code.  (The
     pinned comparison is asymmetric, so which of two matching entries CPython meets first depends
@@ -773,14 +793,19 @@ def vanishes_when_renamed(ops, pool):
         return False
     ops2, pool2 = rename_apart(ops, pool, texts)
     q = _Quiet()
-    run_history(q, None, "renamed", ops=ops2, pool=pool2, classify=False)
+    run_history(q, None, "renamed", ops=ops2, pool=pool2, classify=False, module=module)
     return not q.failed
 
 
-def run_history(ctx, drv, label, ops=None, pool=None, length=0, classify=True, record=None):
+def run_history(ctx, drv, label, ops=None, pool=None, length=0, classify=True, record=None, module=False):
     """one history on the real interpreter, the Lean machine and the dict oracle.
     `ops` given: replay that list; otherwise generate `length` steps from ctx.rng."""
-    real = Real()
+    try:
+        real = Real(module=module)
+    except Exception as e:  # noqa
+        ctx.oracle_fail("module:raises-" + type(e).__name__, dict(kind="history", program=[".module(:m)"]),
+                        "a module can be opened", repr(e), "")
+        return
     oracle = Machine()
     fixed = ops is not None
     done = []
@@ -796,13 +821,13 @@ def run_history(ctx, drv, label, ops=None, pool=None, length=0, classify=True, r
     n = len(ops) if fixed else length
 
     def case():
-        return dict(kind="history", label=label, pool=pool, ops=list(done),
-                    program=[klong_text(o) for o in done])
+        return dict(kind="history", label=label, pool=pool, ops=list(done), module=module,
+                    program=([".module(:m)"] if module else []) + [klong_text(o) for o in done])
 
     def fail(key, expected, observed, what):
         """property failure on the real code; classified as the recorded finding when it vanishes
         once the symbols that share their text with a character key are renamed apart"""
-        if classify and vanishes_when_renamed(done, pool):
+        if classify and vanishes_when_renamed(done, pool, module):
             key = KNOWN_STRCHAR_SYM if strchar_texts(done, pool) else KNOWN_CHAR_SYM
             what = "a stored character key compares equal to a probing symbol with the same text (not vice versa)"
         ctx.oracle_fail(key, case(), expected, observed, what)
@@ -1045,7 +1070,42 @@ WITNESS_STRCHAR_SYM = [
     dict(op="size", d="da"),
 ]
 
+# run inside .module(:m): dictionary literals with SYMBOL keys / payloads, at top level and in functions
+MODULE_HISTORIES = [
+    [dict(op="lit", x="da", ps=[[["y", "tri"], ["i", 3]], [["y", "quad"], ["y", "four"]], [["s", "a"], ["i", 1]]]),
+     dict(op="find", d="da", k=["y", "tri"], into=None),
+     dict(op="join", side="L", form="flat", d="da", k=["y", "tri"], v=["i", 30], into=None),
+     dict(op="size", d="da"),
+     dict(op="remove", d="da", k=["y", "tri"], into=None),
+     dict(op="find", d="da", k=["y", "quad"], into=None),
+     dict(op="deffn", f="f1", form="local", ps=[[["y", "a"], ["i", 1]]]),
+     dict(op="call", x="db", f="f1"),
+     dict(op="join", side="L", form="cat", d="db", k=["y", "a"], v=["i", 5], into=None),
+     dict(op="size", d="db"),
+     dict(op="call", x="dc", f="f1"),
+     dict(op="find", d="dc", k=["y", "a"], into=None),
+     dict(op="deffn", f="f2", form="plain", ps=[[["c", "k"], ["y", "v"]], [["y", "k"], ["y", "k"]]]),
+     dict(op="call", x="dd", f="f2"),
+     dict(op="join", side="R", form="flat", d="dd", k=["s", "status"], v=["y", "ok"], into=None),
+     dict(op="each", d="dd", form="verb")],
+]
+
 BUILTIN_HISTORIES = [
+    # round 7: the flat spelling d,k,v / (k,v),d with a STRING or CHARACTER key and a SYMBOL (or numeric) payload
+    [dict(op="lit", x="da", ps=[]),
+     dict(op="join", side="L", form="flat", d="da", k=["s", "status"], v=["y", "ok"], into=None),
+     dict(op="find", d="da", k=["s", "status"], into=None),
+     dict(op="join", side="L", form="flat", d="da", k=["c", "x"], v=["y", "unknown"], into=None),
+     dict(op="find", d="da", k=["c", "x"], into=None),
+     dict(op="join", side="R", form="flat", d="da", k=["s", "mode"], v=["y", "fast"], into=None),
+     dict(op="find", d="da", k=["s", "mode"], into=None),
+     dict(op="join", side="L", form="flat", d="da", k=["s", "status"], v=["y", "done"], into="db"),
+     dict(op="size", d="db"),
+     dict(op="join", side="R", form="flat", d="db", k=["C", "a"], v=["y", "a"], into=None),
+     dict(op="join", side="L", form="flat", d="da", k=["s", ""], v=["y", "e"], into=None),
+     dict(op="join", side="L", form="flat", d="da", k=["s", "n"], v=["i", -3], into=None),
+     dict(op="join", side="R", form="flat", d="da", k=["c", " "], v=["r", 2.5], into=None),
+     dict(op="each", d="da", form="lambda")],
     # round 5: an add FROM THE LEFT of a key spelled like an existing key of ANOTHER textual kind (and of
     # the same kind) must leave the other key alone and must update the dictionary itself
     [dict(op="lit", x="da", ps=[]),
@@ -1185,12 +1245,15 @@ def run(ctx):
         # 1. the recorded finding's witness, replayed on the real code on every run
         run_history(ctx, drv, "witness", ops=WITNESS_CHAR_SYM)
         run_history(ctx, drv, "witness", ops=WITNESS_STRCHAR_SYM)
+        for h in MODULE_HISTORIES:
+            run_history(ctx, drv, "builtin-module", ops=h, module=True)
+        run_history(ctx, drv, "builtin-module", ops=BUILTIN_HISTORIES[0], module=True)
         ctx.extra["char_symbol_finding_reproduces"] = bool(ctx.known_hits) or any(
             f["key"] == KNOWN_CHAR_SYM for f in ctx.oracle_failures)
         # 2. corpus + built-in histories
-        for h in BUILTIN_HISTORIES[2:5]:
+        for h in BUILTIN_HISTORIES[3:6]:
             run_history(ctx, drv, "builtin", ops=h, record=recorded)
-        for h in BUILTIN_HISTORIES[:2] + BUILTIN_HISTORIES[5:]:
+        for h in BUILTIN_HISTORIES[:3] + BUILTIN_HISTORIES[6:]:
             run_history(ctx, drv, "builtin", ops=h)
         cdir = common.CORPUS / "C10"
         if cdir.exists():
@@ -1202,7 +1265,8 @@ def run(ctx):
         maxlen = 12 if quick else 40
         for _ in range(nseq):
             pool = make_pool(ctx.rng)
-            run_history(ctx, drv, "seeded", pool=pool, length=ctx.rng.randrange(3, maxlen + 1), record=recorded)
+            run_history(ctx, drv, "seeded", pool=pool, length=ctx.rng.randrange(3, maxlen + 1), record=recorded,
+                        module=ctx.rng.random() < 0.15)
         kernel_replay(ctx, recorded)
     finally:
         if drv:
@@ -1214,7 +1278,7 @@ def replay(ctx, case):
     c = case.get("case", case)
     try:
         if isinstance(c, dict) and "ops" in c:
-            run_history(ctx, drv, "replay", ops=c["ops"], pool=c.get("pool"))
+            run_history(ctx, drv, "replay", ops=c["ops"], pool=c.get("pool"), module=bool(c.get("module")))
         else:
             run(ctx)
     finally:
